@@ -55,6 +55,10 @@ def gen_case(rng: Rng, i: int, tier: str):
                     m["name"] = new
             return {"ref": {"members": c["members"], "layout": c["layout"]}, "open": r.pick(["path", "stream", "anon"]), "supply_password": True}
     arc = rsess.gen_archive(rng.sub("arc"), tier)
+    rs = rng.sub("spurious")
+    if rs.chance(0.25):
+        # a password supplied although nothing in the archive is encrypted - the empty string included
+        return {"archive": arc, "open": r.pick(["path", "stream", "anon"]), "supply_password": True, "spurious_password": rs.pick(["", "", "x", "secret"])}
     return {"archive": arc, "open": r.pick(["path", "stream", "anon"]), "supply_password": r.chance(0.6)}
 
 
@@ -112,8 +116,13 @@ def run_case(case):
         built.opened_without_password = True
     cls["without_password"] = nopw
     try:
+        pw_arg = None if nopw else "__model__"
+        if case.get("spurious_password") is not None and built.password is None:
+            pw_arg = case["spurious_password"]
+            built.spurious_password = pw_arg
+        cls["spurious_password"] = getattr(built, "spurious_password", None) is not None
         try:
-            sess = rsess.Session(built, case["open"], {}, mirror_dir=scratch, password=None if nopw else "__model__")
+            sess = rsess.Session(built, case["open"], {}, mirror_dir=scratch, password=pw_arg)
         except Exception as e:
             viol("open_failed", "open", "valid archive does not open: %r" % e, error=type(e).__name__)
             return res
